@@ -109,7 +109,7 @@ func init() {
 			Level: "exploration",
 			Rule: "family 0: every entry set of size ≤ setMax over {exact, d/, d/*} × paths(depth) ∪ {Add(/), /*}, every query path incl. / and \"\"; " +
 				"family 1: every 4-tuple (Writable,Readable,Statable,SoftBan) of sets of size ≤ 1 at depth 2, Handler.CheckRead/Write/Stat on every query; " +
-				"family 2: real symlink forest, raw-or-real clause; family 3: counter tables of ≤ 2 names × counts {-1..3}, all call sequences ≤ seqLen; family 4: sets produced by the grant constructors (AddFilePermission of every path × permission, singly and in pairs; the shipped GetConf loader for every program type, also with command-line additions whose names cannot be resolved: they must grant nothing) — the admitted set is exactly the granted path in its class plus its proper ancestor directories as exact stat entries, on every query incl. \"\" and unresolvable names; family 5: one long-lived policy object asked three times about a link that is re-pointed (covered / uncovered / dangling target, all 27 sequences) between the questions × entry class × class asked: each answer follows from the current target. " +
+				"family 2: real symlink forest, raw-or-real clause; family 3: counter tables of ≤ 2 names × counts {-1..3}, all call sequences ≤ seqLen; family 4: sets produced by the grant constructors (AddFilePermission of every path × permission, singly and in pairs; the shipped GetConf loader for every program type, also with command-line additions whose names cannot be resolved: they must grant nothing; a policy built later for another work path grants nothing below the earlier one and answers about its own directory as the earlier one did about its own) — the admitted set is exactly the granted path in its class plus its proper ancestor directories as exact stat entries, on every query incl. \"\" and unresolvable names; family 5: one long-lived policy object asked three times about a link that is re-pointed (covered / uncovered / dangling target, all 27 sequences) between the questions × entry class × class asked: each answer follows from the current target. " +
 				"non-trivial: the entry set is non-empty and the query is not literally one of the entries; distinct = hash of (family, set, query, answer)",
 			Bound: map[string]any{"depth": depth, "set_size": setMax, "cascade_depth": cascadeDepth, "counter_seq_len": seqLen,
 				"excluded": []string{"query / against entry /* (is the root a child of itself?)", "hand-inserted map key \"/\" (not constructible through Add/AddRange)"}},
@@ -521,6 +521,31 @@ func c18constructors(x *mc.X, paths, queries []string) {
 		// and what it grants is granted
 		if h.CheckRead(wp+"/a.out") != ptracer.TraceAllow || h.CheckStat(wp) != ptracer.TraceAllow {
 			x.Failf("C18/getconf-refuses-granted", "GetConf(%q, %s): the program file or the work path is not admitted", pt, wp)
+		}
+		// a policy built LATER for another work path (same loader, same tables, same process) grants nothing below the
+		// earlier work path, and grants its own: building one policy must not change what the next one is built from
+		wp2 := "/vq0s/later/work"
+		_, _, _, h2 := config.GetConf(pt, wp2, []string{wp2 + "/a.out"}, nil, nil, false)
+		for _, q := range []string{wp + "/zz-uncovered", wp + "/answer.code", wp + "/zz-uncovered/deep"} {
+			got := [3]ptracer.TraceAction{h2.CheckWrite(q), h2.CheckRead(q), h2.CheckStat(q)}
+			for c := 0; c < 3; c++ {
+				x.Count(1)
+				x.Distinct(fmt.Sprint("g2", pt, wp, q, c, got[c]))
+				if got[c] == ptracer.TraceAllow {
+					x.Failf(fmt.Sprintf("C18/getconf-later-policy-admits-the-earlier-work-directory-%s", pn[c+1]), "GetConf(%q, %s) built after GetConf(%q, %s): Check%s(%q) is allowed", pt, wp2, pt, wp, pn[c+1], q)
+				}
+			}
+		}
+		if h2.CheckRead(wp2+"/a.out") != ptracer.TraceAllow || h2.CheckStat(wp2) != ptracer.TraceAllow {
+			x.Failf("C18/getconf-later-policy-refuses-its-own", "GetConf(%q, %s) built after GetConf(%q, %s): its program file or work path is not admitted", pt, wp2, pt, wp)
+		}
+		for _, q := range []string{wp2 + "/answer.code", wp2 + "/zz"} {
+			// whatever the first policy of this kind says about its own directory, the later one says about its own
+			a := [3]ptracer.TraceAction{h0.CheckWrite(wp + strings.TrimPrefix(q, wp2)), h0.CheckRead(wp + strings.TrimPrefix(q, wp2)), h0.CheckStat(wp + strings.TrimPrefix(q, wp2))}
+			b := [3]ptracer.TraceAction{h2.CheckWrite(q), h2.CheckRead(q), h2.CheckStat(q)}
+			if a != b && wp == "/vq0p/work" {
+				x.Failf("C18/getconf-later-policy-differs", "GetConf(%q, …): the policy for %s answers %v about %s, the policy built later for %s answers %v about the same name in its own directory", pt, wp, a, wp+strings.TrimPrefix(q, wp2), wp2, b)
+			}
 		}
 		x.Outcome(fmt.Sprintf("getconf:%v", tally))
 		return
